@@ -2023,6 +2023,9 @@ class Change(Output):
 
             for i in range(len(bins)):
                 I = (change > edges[i]) & (change <= edges[i + 1])
+                if i == 0:
+                    # The first bin includes its lower edge
+                    I = I | (change == edges[i])
                 y[i] = verif.util.nanmean(err[I])
                 x[i] = verif.util.nanmean(change[I])
             mpl.plot(x, y, label=labels[f], **opts)
